@@ -436,9 +436,9 @@ def plan(tier, seed):
     for i in range(nsh):
         specs.append(dict(name="matchers-%d" % i, kind="matchers", years=years[i::nsh]))
     for i in range(8):
-        specs.append(dict(name="eval-%d" % i, kind="eval", n=60 if tier == "quick" else 8000))
+        specs.append(dict(name="eval-%d" % i, kind="eval", n=220 if tier == "quick" else 8000))
     for i in range(8):
-        specs.append(dict(name="timer-%d" % i, kind="timer", n=12 if tier == "quick" else 1500))
+        specs.append(dict(name="timer-%d" % i, kind="timer", n=45 if tier == "quick" else 1500))
     return specs
 
 
@@ -466,6 +466,17 @@ def run(spec, ctx):
         starts = [[d.year - 1900, d.month, d.day] for d in probe_days[:6]] + [[124, 2, 20], [124, 3, 10]]
         strat = st.tuples(ss, st.sampled_from(starts), st.integers(3, 10)).map(lambda t: dict(k="timer", sched=t[0], start=t[1], days=t[2]))
         ctx.for_all(strat, spec["n"])
+        # directed: runs that start before the effective period and cross into and out of it, with transitions right after midnight
+        import datetime as _dt
+        for d0 in probe_days[:3]:
+            for lead, length in ((1, 2), (2, 3), (3, 1)):
+                a = d0 + _dt.timedelta(days=lead)
+                b = a + _dt.timedelta(days=length)
+                day = [[[0, 10, 0, 0], 3], [[8, 0, 0, 0], 5], [[20, 30, 0, 0], None]]
+                for dtype in ("Real", "Unsigned"):
+                    sched = dict(effective=[[a.year - 1900, a.month, a.day], [b.year - 1900, b.month, b.day]], weekly=[list(day) for _ in range(7)], exceptions=[], calendars=[[]],
+                                 default=1, dtype=dtype, shape="both")
+                    ctx.check(dict(k="timer", sched=sched, start=[d0.year - 1900, d0.month, d0.day], days=lead + length + 3))
         # the same in a zone that observes daylight-saving time: summer, winter, and across both clock changes
         zone = "EST5EDT,M3.2.0,M11.1.0"
         dst_starts = [[121, 7, 3], [121, 1, 9], [121, 3, 11], [121, 11, 4], [124, 6, 28]]
